@@ -58,7 +58,7 @@ def getRecompression (acceptEncoding contentEncoding contentType : Bytes) : Reco
     else fallbackCompressionWithDefault contentEncoding contentType .brotli
   | .gzip =>
     if contentEncoding = b!"gzip" then { add := .none, remove := .none }
-    else if contentEncoding = b!"br" then { add := .brotli, remove := .none }     -- sic
+    else if contentEncoding = b!"br" then { add := .none, remove := .none }       -- no Brotli decoder: the origin's coding passes through
     else fallbackCompressionWithDefault contentEncoding contentType .gzip
   | .brokenClient =>
     if contentEncoding = b!"gzip" then { add := .none, remove := .gzip }
@@ -109,7 +109,7 @@ def table : Accepts → CeClass → CtClass → Recompression
   | .brotli, .gzip, _ => ⟨.brotli, .gzip⟩
   | .brotli, ce, ct => if compressible ce ct then ⟨.brotli, .none⟩ else ⟨.none, .none⟩
   | .gzip, .gzip, _ => ⟨.none, .none⟩
-  | .gzip, .br, _ => ⟨.brotli, .none⟩
+  | .gzip, .br, _ => ⟨.none, .none⟩
   | .gzip, ce, ct => if compressible ce ct then ⟨.gzip, .none⟩ else ⟨.none, .none⟩
   | .brokenClient, .gzip, _ => ⟨.none, .gzip⟩
   | .brokenClient, _, _ => ⟨.none, .none⟩
